@@ -1085,3 +1085,179 @@ package fpgo
 //@   requires q != nil && !untyped(q.stack)
 //@   ensures result-passed-through: r0 == _delegated0 && r1 == _delegated1
 
+
+// ===================================================================================================
+// C05 - set algebra on slices / maps; generic functions and their interface{} twins share ONE contract text
+// (the "twin" lines below), so both bodies are verified against the same characterisation of the result.
+
+//@ define CONTAINS(lst, x) = exists(l9, 0, len(lst), lst[l9] == x)
+
+//@ func Minus
+//@   prop C05
+//@   ghost g (Array Int Int)
+//@   ghost pos (Array Int Int)
+//@   ensures sub: forall(j, 0, len(r0), 0 <= g[j] && g[j] < len(set1) && r0[j] == set1[g[j]] && !CONTAINS(set2, set1[g[j]]))
+//@   ensures mono: forall(j, 0, len(r0), forall(l, 0, j, g[l] < g[j]))
+//@   ensures all: forall(k, 0, len(set1), !CONTAINS(set2, set1[k]) ==> 0 <= pos[k] && pos[k] < len(r0) && g[pos[k]] == k)
+//@   ensures fresh: fresh(r0)
+//@   ensures unchanged: unchanged(set1) && unchanged(set2)
+//@ func Minus loop 0
+//@   ghostset g = ite(!CONTAINS(set2, set1[_i]), store(g, resultIndex-1, _i), g)
+//@   ghostset pos = ite(!CONTAINS(set2, set1[_i]), store(pos, _i, resultIndex-1), pos)
+//@   invariant n: 0 <= resultIndex && resultIndex <= _i && len(result) == len(set1) && fresh(result)
+//@   invariant lookup: forallv(x, has(set2Map, x) == CONTAINS(set2, x))
+//@   invariant sub: forall(j, 0, resultIndex, 0 <= g[j] && g[j] < _i && result[j] == set1[g[j]] && !CONTAINS(set2, set1[g[j]]))
+//@   invariant mono: forall(j, 0, resultIndex, forall(l, 0, j, g[l] < g[j]))
+//@   invariant all: forall(k, 0, _i, !CONTAINS(set2, set1[k]) ==> 0 <= pos[k] && pos[k] < resultIndex && g[pos[k]] == k)
+//@ twin Minus MinusForInterface
+
+//@ func IsSubset
+//@   prop C05
+//@   ensures empty: len(list1) == 0 || len(list2) == 0 ==> r0 == false
+//@   ensures def: len(list1) > 0 && len(list2) > 0 ==> r0 == forall(i, 0, len(list1), CONTAINS(list2, list1[i]))
+//@   ensures unchanged: unchanged(list1) && unchanged(list2)
+//@ func IsSubset loop 0
+//@   invariant range: 0 <= i && i <= len(list1) && fresh(resultMap)
+//@   invariant seen: forallv(x, has(resultMap, x) == exists(k, 0, i, list1[k] == x))
+//@   invariant sofar: forall(k, 0, i, CONTAINS(list2, list1[k]))
+//@ func IsSubset loop 1
+//@   invariant range: 0 <= j && j <= len(list2) && 0 <= i && i < len(list1)
+//@   invariant notyet: !found ==> forall(l, 0, j, list2[l] != list1[i])
+//@   invariant found: found ==> CONTAINS(list2, list1[i])
+//@ twin IsSubset IsSubsetForInterface
+
+//@ func IsSuperset
+//@   prop C05
+//@   ensures empty: len(list1) == 0 || len(list2) == 0 ==> r0 == false
+//@   ensures def: len(list1) > 0 && len(list2) > 0 ==> r0 == forall(i, 0, len(list2), CONTAINS(list1, list2[i]))
+//@ twin IsSuperset IsSupersetForInterface
+
+//@ func Union
+//@   prop C05
+//@   ensures members: forall(i, 0, len(r0), exists(k, 0, len(arrList), CONTAINS(arrList[k], r0[i])))
+//@   ensures onto: forall2(k, 0, len(arrList), l, 0, len(arrList[k]), exists(i, 0, len(r0), r0[i] == arrList[k][l]))
+//@   ensures nodup: forall(i, 0, len(r0), forall(j, 0, i, r0[j] != r0[i]))
+//@   ensures fresh: fresh(r0)
+//@ func Union loop 0
+//@   invariant seen: fresh(resultMap) && forallv(x, has(resultMap, x) == exists(k, 0, _i, CONTAINS(arrList[k], x)))
+//@ func Union loop 1
+//@   invariant seen: fresh(resultMap) && arr == arrList[_i0] && forallv(x, has(resultMap, x) == (exists(k, 0, _i0, CONTAINS(arrList[k], x)) || exists(l, 0, _i, arr[l] == x)))
+//@   after summary: fresh(resultMap) && forallv(x, has(resultMap, x) == (exists(k, 0, _i0, CONTAINS(arrList[k], x)) || CONTAINS(arrList[_i0], x)))
+//@ func Union loop 2
+//@   invariant count: i == _i && len(result) == _n && fresh(result)
+//@   invariant prefix: forall(j, 0, _i, result[j] == _keyat(j))
+
+//@ func MinusMapByKey
+//@   prop C05
+//@   ensures dom: forallv(x, has(r0, x) == (has(set1, x) && !has(set2, x)))
+//@   ensures val: forallv(x, has(r0, x) ==> r0[x] == set1[x])
+//@   ensures fresh: fresh(r0)
+//@   ensures unchanged: unchangedmap(set1) && unchangedmap(set2)
+//@ func MinusMapByKey loop 0
+//@   invariant dom: forallv(x, has(resultMap, x) == (_visited(x) && !has(set2, x)))
+//@   invariant val: forallv(x, has(resultMap, x) ==> resultMap[x] == set1[x])
+//@   invariant fresh: fresh(resultMap)
+
+//@ func IsSubsetMapByKey
+//@   prop C05
+//@   ensures empty: len(item1) == 0 || len(item2) == 0 ==> r0 == false
+//@   ensures def: len(item1) > 0 && len(item2) > 0 ==> r0 == forallv(x, has(item1, x) ==> has(item2, x))
+//@   ensures unchanged: unchangedmap(item1) && unchangedmap(item2)
+//@ func IsSubsetMapByKey loop 0
+//@   invariant sofar: forallv(x, _visited(x) ==> has(item2, x))
+//@ twin IsSubsetMapByKey IsSubsetMapByKeyForInterface
+
+//@ func IsSupersetMapByKey
+//@   prop C05
+//@   ensures empty: len(item1) == 0 || len(item2) == 0 ==> r0 == false
+//@   ensures def: len(item1) > 0 && len(item2) > 0 ==> r0 == forallv(x, has(item2, x) ==> has(item1, x))
+//@ twin IsSupersetMapByKey IsSupersetMapByKeyForInterface
+
+// twins of helpers that are specified under C03
+//@ twin Distinct DistinctForInterface prop C05
+//@ twin Exists ExistsForInterface prop C05
+//@ twin Keys KeysForInterface prop C05
+//@ twin Values ValuesForInterface prop C05
+//@ twin Merge MergeForInterface prop C05
+//@ twin SliceToMap SliceToMapForInterface prop C05
+//@ twin DuplicateMap DuplicateMapForInterface prop C05
+
+// Intersection / Difference: element i of the first list is kept iff its value is in all (resp. none) of the other lists and
+// it is the first occurrence of that value in the first list. The ghost predicate inall[x] / innone[x] is DEFINED (clause "def")
+// as that membership statement, so that equal values trivially share it.
+// Precondition: at least one list (Intersection()/Difference() called with a non-nil empty argument list index [0] and panic;
+// such calls are outside the property's quantifier).
+//@ define IX_FIRST(L, i) = forall(l8, 0, i, L[0][l8] != L[0][i])
+
+//@ func Intersection
+//@   prop C05
+//@   ghost g (Array Int Int)
+//@   ghost pos (Array Int Int)
+//@   ghost inall (Array Val Bool)
+//@   ghostinit inall = lamvo(x, forall(k9, 1, len(inputList), CONTAINS(inputList[k9], x)))
+//@   requires inputList == nil || len(inputList) > 0
+//@   ensures def: forallv(x, reveal(inall, x) && inall[x] == forall(k9, 1, len(inputList), CONTAINS(inputList[k9], x)))
+//@   ensures nil: inputList == nil ==> len(r0) == 0
+//@   ensures sub: inputList != nil ==> forall(j, 0, len(r0), 0 <= g[j] && g[j] < len(inputList[0]) && r0[j] == inputList[0][g[j]] && inall[inputList[0][g[j]]] && IX_FIRST(inputList, g[j]))
+//@   ensures mono: forall(j, 0, len(r0), forall(l, 0, j, g[l] < g[j]))
+//@   ensures all: inputList != nil ==> forall(k, 0, len(inputList[0]), inall[inputList[0][k]] && IX_FIRST(inputList, k) ==> 0 <= pos[k] && pos[k] < len(r0) && g[pos[k]] == k)
+//@   ensures fresh: freshOrNil(r0)
+//@ func Intersection loop 0
+//@   ghostset g = ite(IX_FIRST(inputList, i), store(g, len(newList)-1, i), g)
+//@   ghostset pos = ite(IX_FIRST(inputList, i), store(pos, i, len(newList)-1), pos)
+//@   invariant range: 0 <= i && i <= len(inputList[0]) && len(newList) <= i && freshOrNil(newList) && fresh(resultMap) && len(inputList) == 1
+//@   invariant seen: forallv(x, has(resultMap, x) == exists(l, 0, i, inputList[0][l] == x))
+//@   invariant sub: forall(j, 0, len(newList), 0 <= g[j] && g[j] < i && newList[j] == inputList[0][g[j]] && IX_FIRST(inputList, g[j]))
+//@   invariant mono: forall(j, 0, len(newList), forall(l, 0, j, g[l] < g[j]))
+//@   invariant all: forall(k, 0, i, IX_FIRST(inputList, k) ==> 0 <= pos[k] && pos[k] < len(newList) && g[pos[k]] == k)
+//@ func Intersection loop 1
+//@   ghostset g = ite(inall[inputList[0][i]] && IX_FIRST(inputList, i), store(g, len(newList)-1, i), g)
+//@   ghostset pos = ite(inall[inputList[0][i]] && IX_FIRST(inputList, i), store(pos, i, len(newList)-1), pos)
+//@   invariant range: 0 <= i && i <= len(inputList[0]) && len(newList) <= i && freshOrNil(newList) && fresh(resultMap) && inputLen == len(inputList) && inputLen > 1
+//@   invariant seen: forallv(x, has(resultMap, x) == (inall[x] && exists(l, 0, i, inputList[0][l] == x)))
+//@   invariant sub: forall(j, 0, len(newList), 0 <= g[j] && g[j] < i && newList[j] == inputList[0][g[j]] && inall[inputList[0][g[j]]] && IX_FIRST(inputList, g[j]))
+//@   invariant mono: forall(j, 0, len(newList), forall(l, 0, j, g[l] < g[j]))
+//@   invariant all: forall(k, 0, i, inall[inputList[0][k]] && IX_FIRST(inputList, k) ==> 0 <= pos[k] && pos[k] < len(newList) && g[pos[k]] == k)
+//@ func Intersection loop 2
+//@   invariant range: 1 <= j && j <= inputLen && 0 <= matchCount && matchCount <= j-1
+//@   invariant count: (matchCount == j-1) == forall(k, 1, j, CONTAINS(inputList[k], inputList[0][i]))
+//@   after summary: reveal(inall, inputList[0][i]) && (matchCount == inputLen-1) == inall[inputList[0][i]]
+//@ func Intersection loop 3
+//@   invariant range: 0 <= matchCount && matchCount <= j-1
+//@   invariant count: (matchCount == j-1) == forall(k, 1, j, CONTAINS(inputList[k], inputList[0][i]))
+//@   invariant nomatch: forall(l, 0, _i, inputList[j][l] != inputList[0][i])
+//@   after summary: 0 <= matchCount && matchCount <= j && (matchCount == j) == forall(k, 1, j+1, CONTAINS(inputList[k], inputList[0][i]))
+//@ twin Intersection IntersectionForInterface
+
+//@ func Difference
+//@   prop C05
+//@   ghost g (Array Int Int)
+//@   ghost pos (Array Int Int)
+//@   ghost innone (Array Val Bool)
+//@   ghostinit innone = lamvo(x, forall(k9, 1, len(arrList), !CONTAINS(arrList[k9], x)))
+//@   requires arrList == nil || len(arrList) > 0
+//@   ghostset g = ite(len(arrList) == 1, Distinct_g, g)
+//@   ghostset pos = ite(len(arrList) == 1, Distinct_pos, pos)
+//@   ensures def: forallv(x, reveal(innone, x) && innone[x] == forall(k9, 1, len(arrList), !CONTAINS(arrList[k9], x)))
+//@   ensures nil: arrList == nil ==> len(r0) == 0
+//@   ensures sub: arrList != nil ==> forall(j, 0, len(r0), 0 <= g[j] && g[j] < len(arrList[0]) && r0[j] == arrList[0][g[j]] && innone[arrList[0][g[j]]] && IX_FIRST(arrList, g[j]))
+//@   ensures mono: forall(j, 0, len(r0), forall(l, 0, j, g[l] < g[j]))
+//@   ensures all: arrList != nil ==> forall(k, 0, len(arrList[0]), innone[arrList[0][k]] && IX_FIRST(arrList, k) ==> 0 <= pos[k] && pos[k] < len(r0) && g[pos[k]] == k)
+//@   ensures fresh: freshOrNil(r0)
+//@ func Difference loop 0
+//@   ghostset g = ite(innone[arrList[0][i]] && IX_FIRST(arrList, i), store(g, len(newList)-1, i), g)
+//@   ghostset pos = ite(innone[arrList[0][i]] && IX_FIRST(arrList, i), store(pos, i, len(newList)-1), pos)
+//@   invariant range: 0 <= i && i <= len(arrList[0]) && len(newList) <= i && freshOrNil(newList) && fresh(resultMap) && len(arrList) > 1
+//@   invariant seen: forallv(x, has(resultMap, x) == (innone[x] && exists(l, 0, i, arrList[0][l] == x)))
+//@   invariant sub: forall(j, 0, len(newList), 0 <= g[j] && g[j] < i && newList[j] == arrList[0][g[j]] && innone[arrList[0][g[j]]] && IX_FIRST(arrList, g[j]))
+//@   invariant mono: forall(j, 0, len(newList), forall(l, 0, j, g[l] < g[j]))
+//@   invariant all: forall(k, 0, i, innone[arrList[0][k]] && IX_FIRST(arrList, k) ==> 0 <= pos[k] && pos[k] < len(newList) && g[pos[k]] == k)
+//@ func Difference loop 1
+//@   invariant range: 1 <= j && j <= len(arrList) && 0 <= matchCount
+//@   invariant count: (matchCount == 0) == forall(k, 1, j, !CONTAINS(arrList[k], arrList[0][i]))
+//@   after summary: reveal(innone, arrList[0][i]) && (matchCount == 0) == innone[arrList[0][i]]
+//@ func Difference loop 2
+//@   invariant range: 0 <= matchCount
+//@   invariant count: (matchCount == 0) == forall(k, 1, j, !CONTAINS(arrList[k], arrList[0][i]))
+//@   invariant nomatch: forall(l, 0, _i, arrList[j][l] != arrList[0][i])
+//@   after summary: 0 <= matchCount && (matchCount == 0) == forall(k, 1, j+1, !CONTAINS(arrList[k], arrList[0][i]))
